@@ -243,6 +243,21 @@ End Findings.
 Definition foreign_uploaded_shared_dir (c : cfg) (ops : list op) : bool := any_bad c (bad_a c) s0 ops.
 Definition own_event_before_reply (c : cfg) (ops : list op) : bool := any_bad c (bad_d c) s0 ops.
 
+(* ---- directory NAMES.  control-spec 4.1.25: HsDir = LongName / Fingerprint, i.e. Tor names a directory
+        "$FINGERPRINT~nickname" or just "$FINGERPRINT" (the long form when it knows the relay's descriptor, which can
+        change between two events).  The directory is the relay, i.e. the fingerprint.  In a history as it is
+        fed to the implementation the third component of Ev is a NAME: name 2i = the fingerprint-only form
+        of directory i, name 2i+1 = its long form.  Everything above speaks about directories; a named
+        history is judged after replacing every name by its directory. ---- *)
+Definition dir_id (name : N) : N := N.div2 name.
+Definition canon_op (o : op) : op := match o with Ev k a d => Ev k a (dir_id d) | x => x end.
+Definition canon (ops : list op) : list op := map canon_op ops.
+
+Definition oracle_named (c : cfg) (ops : list op) (tr : list rec) : bool := oracle c (canon ops) tr.
+
+Definition names_of (ops : list op) : list N :=
+  flat_map (fun o => match o with Ev _ _ d => [d] | _ => [] end) ops.
+
 (* ---- equality of traces (progress values compared as fractions) ---- *)
 Definition result_eqb (a b : result) : bool :=
   match a, b with
